@@ -365,7 +365,7 @@ fn main() {
     rep.set("pool_sizes", json!(sizes));
     let nonces = rep.tier.pick(1usize, 3usize);
     random_api(&rep);
-    let cases = templates::cases(true, rep.seed, rep.tier.pick(1usize, 6usize));
+    let cases = templates::cases(true, rep.seed, rep.tier.pick(2usize, 6usize));
     let cases: Vec<_> = cases.into_iter().filter(|c| c.n > 0 || c.seed % 5 == 0).collect();
     let n = cases.len();
     std::thread::scope(|s| {
@@ -382,7 +382,7 @@ fn main() {
         }
     });
     rep.count("template_cells", n as u64);
-    let n_pipe = rep.tier.pick(200usize, 3000usize);
+    let n_pipe = rep.tier.pick(600usize, 3000usize);
     std::thread::scope(|s| {
         for (w, range) in mv::shards(n_pipe, num_workers().min(8)).into_iter().enumerate() {
             let rep = &rep;
